@@ -12,7 +12,12 @@ MF = ['--malloc-may-fail', '--malloc-fail-null', '--memory-leak-check']
 
 
 def jobs():
-    return [
+    from props import C19
+    ins = [j for j in C19.jobs() if j.name == 'insert_element_at']
+    for j in ins:
+        j.name = 'list_insert_failed_growth'
+        j.clauses = ['a failed growth reallocation => CIF_MEMORY_ERROR, list (array, size, capacity, every slot) unchanged, the copy released']
+    return ins + [
         Job('unicode_normalize_oom', 'utils_h.c', entry='harness_unicode_normalize', enforce='cif_unicode_normalize', replace=['unorm_normalize_72', 'u_strlen_72'],
             tus=['utils.c'], defines={'MAXN': 8}, thorough_defines={'MAXN': 16}, flags=MF, unwind=4, bounded=None,
             reach=['normalised', 'norm-failed'], min_obligations=20, trusted=[ICU], timeout=1200, mem_gb=16, add_library=True,
